@@ -166,12 +166,13 @@ pub struct Store {
 
 pub fn open_store(ctx: &Ctx, rel: &str, cfg: &StoreCfg) -> Result<Store, String> {
     let conf = build_conf(cfg, &ctx.abs(rel));
-    match conf.open() {
-        Ok(kv) => {
+    match std::panic::catch_unwind(std::panic::AssertUnwindSafe(|| conf.open())) {
+        Ok(Ok(kv)) => {
             let h = kv.get_handle();
             Ok(Store { kv: Some(kv), h, rel: rel.to_string(), cfg: cfg.clone() })
         }
-        Err(e) => Err(format!("{}", e)),
+        Ok(Err(e)) => Err(format!("{}", e)),
+        Err(p) => Err(format!("panic({})", panic_msg(&p))),
     }
 }
 
@@ -1024,4 +1025,733 @@ pub fn check_shadow_vs_disk(ctx: &mut Ctx, rel: &str) {
     if let Some(p) = problems.first() {
         ctx.viol("shadow-divergence", p.clone(), "");
     }
+}
+
+// =============================================================================================
+// C03 / C09 / C14(crash part): crash and power-loss images of a recorded workload
+
+/// Model state for crash point `k`: effects of all operations that had returned (last record
+/// <= k), plus the at most one operation per thread that was in flight.
+fn durable_expectation(hist: &[OpRec], keys: &[Vec<u8>], k: u64) -> (Model, Vec<(usize, Option<Vec<u8>>)>) {
+    let mut m = Model::new();
+    let mut inflight = Vec::new();
+    for r in hist {
+        if let Some((ki, v)) = &r.effect {
+            if r.last_seq <= k && r.last_seq >= r.first_seq {
+                match v {
+                    Some(v) => {
+                        m.insert(keys[*ki].clone(), v.clone());
+                    }
+                    None => {
+                        m.remove(&keys[*ki]);
+                    }
+                }
+            } else if r.first_seq <= k && k < r.last_seq {
+                inflight.push((*ki, v.clone()));
+            }
+        }
+    }
+    (m, inflight)
+}
+
+/// Execute the main thread's operations without per-operation oracles (any failure without an
+/// injected fault is still a violation) and record which I/O records belong to which operation.
+fn exec_recorded(ctx: &mut Ctx, scn: &StoreScn, rel: &str) -> Option<(Vec<OpRec>, Option<Store>)> {
+    let cfg = scn.cfg.clone();
+    let mut store = match open_store(ctx, rel, &cfg) {
+        Ok(s) => Some(s),
+        Err(e) => {
+            ctx.viol("open-failed", format!("initial open of an empty directory failed: {}", e), "");
+            return None;
+        }
+    };
+    let keys = &scn.keys;
+    let mut hist = Vec::new();
+    for (i, op) in scn.threads[0].iter().enumerate() {
+        fsim::set_op_tag(tag_of(0, i));
+        let first_seq = io_seq(ctx.sim) + 1;
+        let mut effect = None;
+        let mut ok = true;
+        let h = store.as_ref().unwrap().h.clone();
+        match op {
+            Op::Set(k, v) => {
+                let val = v.bytes();
+                match set(&h, &keys[*k], val.clone()) {
+                    Ok(()) => effect = Some((*k, Some(val))),
+                    Err(e) => {
+                        ok = false;
+                        ctx.viol("op-failed", format!("op#{} set({}) returned {} with no fault injected", i, hex(&keys[*k]), e), "");
+                    }
+                }
+            }
+            Op::Del(k) => match del(&h, &keys[*k]) {
+                Ok(_) => effect = Some((*k, None)),
+                Err(e) => {
+                    ok = false;
+                    ctx.viol("op-failed", format!("op#{} del({}) returned {} with no fault injected", i, hex(&keys[*k]), e), "");
+                }
+            },
+            Op::Get(k) => {
+                let _ = get(&h, &keys[*k]);
+            }
+            Op::Merge => {
+                if let Err(e) = merge(&h) {
+                    ok = false;
+                    ctx.viol("merge-failed", format!("op#{} merge returned {} with no fault injected", i, e), "");
+                }
+            }
+            Op::Reopen(_) | Op::Retune(_) => {
+                drop(h.clone());
+                let old = store.take().unwrap();
+                drop(old);
+                drop(h);
+                ctx.join_others();
+                match open_store(ctx, rel, &cfg) {
+                    Ok(s) => store = Some(s),
+                    Err(e) => {
+                        ctx.viol("open-failed", format!("op#{} reopen failed: {}", i, e), "");
+                        return None;
+                    }
+                }
+                let last_seq = io_seq(ctx.sim);
+                hist.push(OpRec { idx: i, thread: 0, first_seq, last_seq, effect: None, ok: true });
+                continue;
+            }
+            Op::Pass(ms) => ctx.sim.sleep_thread(ctx.me, ms * 1_000_000),
+            Op::Sync => {
+                let _ = h.verif_sync();
+            }
+            Op::ClockJump(_) => {}
+        }
+        drop(h);
+        let last_seq = io_seq(ctx.sim);
+        hist.push(OpRec { idx: i, thread: 0, first_seq, last_seq, effect, ok });
+        if !ctx.out.violations.is_empty() {
+            break;
+        }
+    }
+    fsim::set_op_tag(0);
+    Some((hist, store))
+}
+
+/// What kind of record is `k`, for reach probes and coverage signatures.
+fn classify_point(sim: &Sim, k: u64, hist: &[OpRec], ops: &[Op]) -> (u64, &'static str) {
+    let (op, is_hint, tag) = fsim::with_fs(sim, |fs| {
+        if k == 0 || k as usize > fs.log.len() {
+            return (IoOp::Close, false, 0);
+        }
+        let r = &fs.log[k as usize - 1];
+        (r.op, fs.path_name(r.path).ends_with(".hint"), r.tag)
+    });
+    let opidx = (tag & 0xffff_ffff) as usize;
+    let during = if opidx >= 1 && opidx <= ops.len() {
+        match &ops[opidx - 1] {
+            Op::Set(..) => "set",
+            Op::Del(..) => "del",
+            Op::Merge => "merge",
+            Op::Reopen(..) | Op::Retune(..) => "reopen",
+            _ => "other",
+        }
+    } else {
+        "none"
+    };
+    let inflight = hist.iter().any(|r| r.first_seq <= k && k < r.last_seq);
+    let code = mix(op as u64, mix(is_hint as u64, mix(fnv1a(during.as_bytes()), inflight as u64)));
+    (code, during)
+}
+
+pub fn run_crash(ctx: &mut Ctx, scn: &StoreScn, power: bool) {
+    let rel = ctx.new_dir("s");
+    let (hist, store) = match exec_recorded(ctx, scn, &rel) {
+        Some(x) => x,
+        None => return,
+    };
+    if !ctx.out.violations.is_empty() {
+        drop(store);
+        ctx.join_others();
+        return;
+    }
+    let last = io_seq(ctx.sim);
+    drop(store);
+    ctx.join_others();
+    // freeze: from here on the workload directory's history is only read
+    let keys = &scn.keys;
+    let ops = &scn.threads[0];
+    // crash points: after every record that changes the image (and, for power loss, fsyncs)
+    let points: Vec<u64> = fsim::with_fs(ctx.sim, |fs| {
+        let prefix = format!("{}/", rel);
+        let mut v = vec![0u64];
+        for r in &fs.log {
+            if r.seq > last {
+                break;
+            }
+            if !fs.path_name(r.path).starts_with(&prefix) || r.res < 0 {
+                continue;
+            }
+            match r.op {
+                IoOp::Create | IoOp::Write | IoOp::Unlink => v.push(r.seq),
+                IoOp::Fsync if power => v.push(r.seq),
+                _ => {}
+            }
+        }
+        v
+    });
+    let mut chosen: Vec<u64> = points.clone();
+    if scn.max_crash_points > 0 && chosen.len() > scn.max_crash_points as usize {
+        // keep first/last of every operation, sample the rest
+        let mut keep: BTreeSet<u64> = BTreeSet::new();
+        for r in &hist {
+            keep.insert(r.first_seq);
+            keep.insert(r.last_seq);
+            if r.first_seq > 0 {
+                keep.insert(r.first_seq - 1);
+            }
+        }
+        let mut rest: Vec<u64> = Vec::new();
+        let mut must: Vec<u64> = Vec::new();
+        for p in &chosen {
+            if keep.contains(p) {
+                must.push(*p);
+            } else {
+                rest.push(*p);
+            }
+        }
+        while must.len() + rest.len() > scn.max_crash_points as usize && !rest.is_empty() {
+            let i = ctx.sim.with_stream("crash", |r| r.usize_below(rest.len()));
+            rest.swap_remove(i);
+        }
+        while must.len() > scn.max_crash_points as usize {
+            let i = ctx.sim.with_stream("crash", |r| r.usize_below(must.len()));
+            must.swap_remove(i);
+        }
+        must.extend(rest);
+        must.sort_unstable();
+        chosen = must;
+    }
+    let mut images = 0u64;
+    let mut rec_cfg = scn.cfg.clone();
+    rec_cfg.merge_always = false;
+    rec_cfg.sync = SyncCfg::None;
+    for &k in &chosen {
+        let (code, during) = classify_point(ctx.sim, k, &hist, ops);
+        let (want, inflight) = durable_expectation(&hist, keys, k);
+        // the files and their written / synced lengths at k
+        let files: Vec<(String, u64, u64, usize)> = fsim::with_fs(ctx.sim, |fs| fs.image_at(&rel, k));
+        let variants: u32 = if power { 2 } else { 1 };
+        for variant in 0..variants {
+            let mut img = DirImage::new();
+            let mut lost_any = false;
+            let mut torn_any = false;
+            fsim::with_fs(ctx.sim, |fs| {
+                for (name, len, synced, inc) in &files {
+                    let keep_len = if !power {
+                        *len
+                    } else if variant == 0 {
+                        *synced
+                    } else {
+                        // random surviving length between synced and written
+                        let span = len - synced;
+                        if span == 0 {
+                            *len
+                        } else {
+                            let c = ctx.sim.with_stream("crash", |r| r.below(4));
+                            match c {
+                                0 => *synced,
+                                1 => *len,
+                                2 => synced + 1.min(span),
+                                _ => synced + ctx.sim.with_stream("crash", |r| r.below(span + 1)),
+                            }
+                        }
+                    };
+                    if keep_len < *len {
+                        lost_any = true;
+                        if keep_len > *synced {
+                            torn_any = true;
+                        }
+                    }
+                    img.insert(name.clone(), fs.incs[*inc].data[..keep_len as usize].to_vec());
+                }
+            });
+            if power && variant == 1 && !lost_any {
+                continue; // identical to the kill image, which C03 covers
+            }
+            images += 1;
+            if lost_any {
+                ctx.sim.probe("power_image_lost_unsynced_bytes");
+            }
+            if torn_any {
+                ctx.sim.probe("power_image_torn_tail");
+            }
+            if img.iter().any(|(n, b)| n.ends_with(".data") && b.is_empty()) {
+                ctx.sim.probe("image_with_empty_data_file");
+            }
+            match during {
+                "merge" => ctx.sim.probe("crash_point_inside_merge"),
+                "reopen" => ctx.sim.probe("crash_point_inside_recovery_open"),
+                "set" | "del" => {
+                    if !inflight.is_empty() {
+                        ctx.sim.probe("crash_point_inside_multi_write_entry")
+                    }
+                }
+                _ => {}
+            }
+            // hint durable beyond data? (reach probe for C09)
+            if power {
+                for (n, b) in &img {
+                    if let Some((id, true)) = scan::parse_name(n) {
+                        let (hrecs, _) = scan::scan_hint(b);
+                        let dlen = img.get(&format!("{}.bitcask.data", id)).map(|d| d.len() as u64).unwrap_or(0);
+                        if hrecs.iter().any(|h| h.pos + h.len > dlen) {
+                            ctx.sim.probe("hint_durable_beyond_data");
+                        }
+                    }
+                }
+            }
+            ctx.sig(mix(code, variant as u64));
+            if std::env::var("BCSIM_DEBUG").is_ok() {
+                eprintln!("point k={} during={} variant={} files=[{}] want={:?} inflight={}", k, during, variant, img.iter().map(|(n, b)| format!("{}:{}", n, b.len())).collect::<Vec<_>>().join(" "), want.iter().map(|(k, v)| (hex(k), hex(v))).collect::<Vec<_>>(), inflight.len());
+            }
+            let label = if power { "power loss" } else { "kill" };
+            check_image(ctx, scn, &img, &want, &inflight, &rec_cfg, k, label, variant, images);
+            if !ctx.out.violations.is_empty() {
+                ctx.out.evaluations = images;
+                return;
+            }
+        }
+    }
+    ctx.out.evaluations = images.max(1);
+    ctx.out.nontrivial = images > 1;
+    remove_dir(ctx, &rel);
+}
+
+fn allowed(want: &Model, inflight: &[(usize, Option<Vec<u8>>)], keys: &[Vec<u8>], key: &[u8], got: &Option<Vec<u8>>) -> bool {
+    if want.get(key) == got.as_ref() {
+        return true;
+    }
+    inflight.iter().any(|(ki, v)| keys[*ki] == key && v == got)
+}
+
+#[allow(clippy::too_many_arguments)]
+fn check_image(ctx: &mut Ctx, scn: &StoreScn, img: &DirImage, want: &Model, inflight: &[(usize, Option<Vec<u8>>)], rec_cfg: &StoreCfg, k: u64, label: &str, variant: u32, nth: u64) {
+    let keys = &scn.keys;
+    let irel = materialise(ctx, "i", img, None);
+    let files_desc = || img.iter().map(|(n, b)| format!("{}:{}", n, b.len())).collect::<Vec<_>>().join(" ");
+    let s = match open_store(ctx, &irel, rec_cfg) {
+        Ok(s) => s,
+        Err(e) => {
+            ctx.viol("recovery-open-failed", format!("{} after I/O record {} (variant {}): the directory [{}] cannot be opened: {}", label, k, variant, files_desc(), e), "");
+            return;
+        }
+    };
+    let mut first_scan = Model::new();
+    for key in keys {
+        match get(&s.h, key) {
+            Ok(got) => {
+                if !allowed(want, inflight, keys, key, &got) {
+                    let sg = diagnose_key(img, key, &got);
+                    ctx.viol(
+                        "recovery-mismatch",
+                        format!(
+                            "{} after I/O record {} (variant {}): key {} reads {} after recovery; acknowledged value is {}{} [files: {}]",
+                            label,
+                            k,
+                            variant,
+                            hex(key),
+                            hexo(&got),
+                            hexo(&want.get(key).cloned()),
+                            if inflight.is_empty() { String::new() } else { format!(", in flight: {:?}", inflight.iter().map(|(ki, v)| (hex(&keys[*ki]), hexo(v))).collect::<Vec<_>>()) },
+                            files_desc()
+                        ),
+                        &sg,
+                    );
+                    drop(s);
+                    ctx.join_others();
+                    return;
+                }
+                if let Some(v) = got {
+                    first_scan.insert(key.clone(), v);
+                }
+            }
+            Err(e) => {
+                ctx.viol("recovery-read-failed", format!("{} after I/O record {} (variant {}): get({}) on the recovered store returned {} [files: {}]", label, k, variant, hex(key), e, files_desc()), "");
+                drop(s);
+                ctx.join_others();
+                return;
+            }
+        }
+    }
+    // the recovered store is usable: a set/get/del round with map semantics (on a share of images)
+    if nth % 4 == 0 {
+        for (j, key) in keys.iter().enumerate() {
+            let val = Val { tag: 900_000 + j as u32, len: 9 }.bytes();
+            let r1 = set(&s.h, key, val.clone());
+            let r2 = get(&s.h, key);
+            let r3 = del(&s.h, key);
+            let r4 = get(&s.h, key);
+            if r1 != Ok(()) || r2 != Ok(Some(val)) || r3 != Ok(true) || r4 != Ok(None) {
+                ctx.viol("recovered-store-unusable", format!("{} after I/O record {}: set/get/del/get on key {} of the recovered store gave {:?} {:?} {:?} {:?}", label, k, hex(key), r1, r2.map(|v| hexo(&v)), r3, r4.map(|v| hexo(&v))), "");
+                break;
+            }
+            // restore
+            if let Some(v) = first_scan.get(key) {
+                let _ = set(&s.h, key, v.clone());
+            }
+        }
+    }
+    drop(s);
+    ctx.join_others();
+    // recovery is idempotent: a second open reads the same (on a share of images)
+    if nth % 4 == 1 && ctx.out.violations.is_empty() {
+        match open_store(ctx, &irel, rec_cfg) {
+            Ok(s2) => {
+                match scan_all(&s2.h, keys) {
+                    Ok(m2) => {
+                        if let Some(d) = diff_models(&m2, &first_scan) {
+                            ctx.viol("recovery-not-idempotent", format!("{} after I/O record {}: a second open of the recovered directory reads differently: {}", label, k, d), "");
+                        }
+                    }
+                    Err(e) => ctx.viol("recovery-read-failed", format!("{} after I/O record {}: second open: {}", label, k, e), ""),
+                }
+                drop(s2);
+                ctx.join_others();
+            }
+            Err(e) => ctx.viol("recovery-open-failed", format!("{} after I/O record {}: the recovered directory cannot be opened a second time: {}", label, k, e), ""),
+        }
+    }
+    remove_dir(ctx, &irel);
+}
+
+// =============================================================================================
+// C20: one transient failure of a file-system call per run, every position
+
+#[derive(Clone, Debug)]
+pub struct FaultableCall {
+    pub index: u64,
+    pub op: IoOp,
+    pub tag: u64,
+}
+
+/// Fault-free pass: the list of faultable calls of the workload (in order).
+pub fn count_faultable(ctx: &mut Ctx, scn: &StoreScn) -> Vec<FaultableCall> {
+    let rel = ctx.new_dir("s");
+    fsim::with_fs(ctx.sim, |fs| {
+        fs.fault = None;
+        fs.fault_reads = scn.fault_reads;
+    });
+    let r = exec_recorded(ctx, scn, &rel);
+    // the final merge and reopen of the oracle are part of the fault space too
+    if let Some((_, Some(store))) = r {
+        fsim::set_op_tag(tag_of(0, scn.threads[0].len()));
+        let _ = merge(&store.h);
+        fsim::set_op_tag(tag_of(0, scn.threads[0].len() + 1));
+        drop(store);
+        ctx.join_others();
+        if let Ok(s) = open_store(ctx, &rel, &scn.cfg) {
+            drop(s);
+        }
+        ctx.join_others();
+    } else {
+        ctx.join_others();
+    }
+    fsim::set_op_tag(0);
+    let reads = scn.fault_reads;
+    let calls = fsim::with_fs(ctx.sim, |fs| {
+        let mut v = Vec::new();
+        let mut n = 0u64;
+        for r in &fs.log {
+            let faultable = match r.op {
+                IoOp::Create | IoOp::Write | IoOp::Fsync | IoOp::OpenWriteExisting => r.what != "write-deferred-error" && !r.what.ends_with("eintr"),
+                IoOp::Unlink => r.res >= 0,
+                IoOp::OpenRead | IoOp::Mmap => reads,
+                IoOp::Stat => reads && r.fd >= 0,
+                _ => false,
+            };
+            if faultable {
+                n += 1;
+                v.push(FaultableCall { index: n, op: r.op, tag: r.tag });
+            }
+        }
+        debug_assert_eq!(n, fs.faultable_seen);
+        v
+    });
+    remove_dir(ctx, &rel);
+    calls
+}
+
+/// One run with `scn.fault` set: the C20 oracle.
+pub fn run_fault_one(ctx: &mut Ctx, scn: &StoreScn) {
+    let (nth, errno, mode) = scn.fault.expect("fault spec");
+    fsim::with_fs(ctx.sim, |fs| {
+        fs.fault = Some(fsim::FaultSpec { nth, errno, mode: if mode == 1 { fsim::FailMode::ShortThenError } else { fsim::FailMode::Clean } });
+        fs.fault_reads = scn.fault_reads;
+    });
+    let rel = ctx.new_dir("s");
+    let keys = &scn.keys;
+    let cfg = scn.cfg.clone();
+    let errors_seen = |sim: &Sim| -> usize { fsim::with_fs(sim, |fs| fs.log.iter().filter(|r| r.injected && r.res < 0 && !r.what.ends_with("eintr")).count()) };
+    let mut model = Model::new();
+    // the failed operation's key may hold either value until a later acknowledged operation settles it
+    let mut uncertain: Option<(Vec<u8>, Option<Vec<u8>>, Option<Vec<u8>>)> = None;
+    let mut fault_op: Option<String> = None;
+    let mut store: Option<Store> = None;
+    // the initial open is an operation too
+    {
+        let e0 = errors_seen(ctx.sim);
+        match open_store(ctx, &rel, &cfg) {
+            Ok(s) => {
+                if errors_seen(ctx.sim) > e0 {
+                    ctx.viol("fault-swallowed", format!("fault #{} (errno {}) hit the initial open, which returned Ok", nth, errno), "");
+                    return;
+                }
+                store = Some(s);
+            }
+            Err(e) => {
+                if errors_seen(ctx.sim) == e0 {
+                    ctx.viol("open-failed", format!("initial open failed without a fault: {}", e), "");
+                    return;
+                }
+                fault_op = Some("open".into());
+                ctx.join_others();
+                match open_store(ctx, &rel, &cfg) {
+                    Ok(s) => store = Some(s),
+                    Err(e2) => {
+                        ctx.viol("unusable-after-fault", format!("fault #{} (errno {}) failed the initial open ({}); the directory cannot be opened afterwards: {}", nth, errno, e, e2), "");
+                        return;
+                    }
+                }
+            }
+        }
+    }
+    let ops: Vec<Op> = scn.threads[0].clone();
+    let total = ops.len();
+    let mut i = 0usize;
+    // after the workload: a merge (4) and a close/reopen (5)
+    let mut tail = vec![Op::Merge, Op::Reopen(true)];
+    let mut all_ops = ops.clone();
+    all_ops.append(&mut tail);
+    while i < all_ops.len() {
+        let op = all_ops[i].clone();
+        fsim::set_op_tag(tag_of(0, i));
+        let e0 = errors_seen(ctx.sim);
+        let h = store.as_ref().unwrap().h.clone();
+        let desc;
+        // outcome: Ok(()) or Err(text)
+        let mut outcome: Result<(), String> = Ok(());
+        let mut touched: Option<(Vec<u8>, Option<Vec<u8>>, Option<Vec<u8>>)> = None;
+        match &op {
+            Op::Set(k, v) => {
+                let key = keys[*k].clone();
+                let val = v.bytes();
+                desc = format!("op#{} set({}, {}B)", i, hex(&key), val.len());
+                let old = model.get(&key).cloned();
+                match set(&h, &key, val.clone()) {
+                    Ok(()) => {
+                        model.insert(key.clone(), val.clone());
+                        if matches!(&uncertain, Some((uk, _, _)) if *uk == key) {
+                            uncertain = None;
+                        }
+                    }
+                    Err(e) => {
+                        outcome = Err(e);
+                        touched = Some((key, old, Some(val)));
+                    }
+                }
+            }
+            Op::Del(k) => {
+                let key = keys[*k].clone();
+                desc = format!("op#{} del({})", i, hex(&key));
+                let old = model.get(&key).cloned();
+                match del(&h, &key) {
+                    Ok(b) => {
+                        let want = if let Some((uk, a, b2)) = &uncertain {
+                            if *uk == key {
+                                // either answer is acceptable while the key is uncertain
+                                let _ = (a, b2);
+                                b
+                            } else {
+                                old.is_some()
+                            }
+                        } else {
+                            old.is_some()
+                        };
+                        if b != want {
+                            ctx.viol("wrong-after-fault", format!("{} returned {} but the key was {} (fault #{} errno {} in {:?})", desc, b, if want { "present" } else { "absent" }, nth, errno, fault_op), "");
+                        }
+                        model.remove(&key);
+                        if matches!(&uncertain, Some((uk, _, _)) if *uk == key) {
+                            uncertain = None;
+                        }
+                    }
+                    Err(e) => {
+                        outcome = Err(e);
+                        touched = Some((key, old, None));
+                    }
+                }
+            }
+            Op::Get(k) => {
+                let key = keys[*k].clone();
+                desc = format!("op#{} get({})", i, hex(&key));
+                match get(&h, &key) {
+                    Ok(got) => {
+                        let ok = match &uncertain {
+                            Some((uk, a, b)) if *uk == key => got == *a || got == *b,
+                            _ => got == model.get(&key).cloned(),
+                        };
+                        if !ok {
+                            ctx.viol("wrong-after-fault", format!("{} returned {} but should be {} (fault #{} errno {} in {:?})", desc, hexo(&got), hexo(&model.get(&key).cloned()), nth, errno, fault_op), "");
+                        }
+                    }
+                    Err(e) => outcome = Err(e),
+                }
+            }
+            Op::Merge => {
+                desc = format!("op#{} merge", i);
+                if let Err(e) = merge(&h) {
+                    outcome = Err(e);
+                }
+            }
+            Op::Reopen(_) | Op::Retune(_) => {
+                desc = format!("op#{} close+reopen", i);
+                let old = store.take().unwrap();
+                drop(old);
+                drop(h.clone());
+                // h is dropped below before opening
+                outcome = Ok(());
+            }
+            _ => {
+                desc = format!("op#{} (no-op)", i);
+            }
+        }
+        drop(h);
+        if store.is_none() {
+            ctx.join_others();
+            match open_store(ctx, &rel, &cfg) {
+                Ok(s) => store = Some(s),
+                Err(e) => {
+                    if errors_seen(ctx.sim) > e0 {
+                        outcome = Err(e);
+                        ctx.join_others();
+                        match open_store(ctx, &rel, &cfg) {
+                            Ok(s) => store = Some(s),
+                            Err(e2) => {
+                                ctx.viol("unusable-after-fault", format!("fault #{} (errno {}) failed {}; the directory cannot be opened afterwards: {}", nth, errno, desc, e2), "");
+                                return;
+                            }
+                        }
+                    } else {
+                        ctx.viol("unusable-after-fault", format!("{} failed with {} although the fault (#{} errno {} in {:?}) happened earlier", desc, e, nth, errno, fault_op), "");
+                        return;
+                    }
+                }
+            }
+        }
+        let faulted_here = errors_seen(ctx.sim) > e0;
+        match (&outcome, faulted_here) {
+            (Ok(()), true) => {
+                ctx.viol("fault-swallowed", format!("fault #{} (errno {}) hit a file-system call made by {}, which nevertheless returned Ok", nth, errno, desc), "");
+            }
+            (Err(e), false) => {
+                ctx.viol("unusable-after-fault", format!("{} failed with {} although no call of it was failed (the fault #{} errno {} was injected earlier, in {:?})", desc, e, nth, errno, fault_op), "");
+            }
+            (Err(_), true) => {
+                fault_op = Some(desc.clone());
+                ctx.sim.probe("fault_reported_as_error");
+                if let Some(t) = touched.take() {
+                    if t.1 != t.2 {
+                        uncertain = Some(t);
+                    }
+                }
+                match &op {
+                    Op::Merge => ctx.sim.probe("fault_during_merge"),
+                    Op::Reopen(..) | Op::Retune(..) => ctx.sim.probe("fault_during_open"),
+                    Op::Set(_, v) if v.len >= 8150 => ctx.sim.probe("fault_during_multi_write_entry"),
+                    _ => {}
+                }
+            }
+            (Ok(()), false) => {}
+        }
+        if !ctx.out.violations.is_empty() {
+            break;
+        }
+        // (2)/(3)/(6): after the faulted operation, and at the end, every key reads correctly
+        if faulted_here || i + 1 == all_ops.len() || i + 1 == total {
+            let s = store.as_ref().unwrap();
+            for key in keys {
+                let got = match get(&s.h, key) {
+                    Ok(g) => g,
+                    Err(e) => {
+                        // a read-side fault may hit the oracle's own get: it must then be an error once
+                        if scn.fault_reads && errors_seen(ctx.sim) > e0 && !faulted_here {
+                            match get(&s.h, key) {
+                                Ok(g) => g,
+                                Err(e2) => {
+                                    ctx.viol("unusable-after-fault", format!("get({}) keeps failing after a read fault: {}", hex(key), e2), "");
+                                    break;
+                                }
+                            }
+                        } else {
+                            ctx.viol("unusable-after-fault", format!("after {} (fault #{} errno {} in {:?}) get({}) returned {}", desc, nth, errno, fault_op, hex(key), e), "");
+                            break;
+                        }
+                    }
+                };
+                let ok = match &uncertain {
+                    Some((uk, a, b)) if uk == key => got == *a || got == *b,
+                    _ => got == model.get(key).cloned(),
+                };
+                if !ok {
+                    let what = if matches!(&op, Op::Reopen(..)) || i + 1 == all_ops.len() { "after the restart" } else { "in the running process" };
+                    ctx.viol(
+                        "wrong-after-fault",
+                        format!("after {} (fault #{} errno {} in {:?}) key {} reads {} {}; acknowledged value is {}{}", desc, nth, errno, fault_op, hex(key), hexo(&got), what, hexo(&model.get(key).cloned()), match &uncertain { Some((uk, a, b)) => format!(" (uncertain key {}: {} or {})", hex(uk), hexo(a), hexo(b)), None => String::new() }),
+                        "",
+                    );
+                    break;
+                }
+                // in the running process the uncertain key settles on what was observed
+                if let Some((uk, _, _)) = &uncertain {
+                    if uk == key && !matches!(&op, Op::Reopen(..)) {
+                        // keep both alternatives: a restart may legitimately show the other one
+                    }
+                }
+            }
+        }
+        if !ctx.out.violations.is_empty() {
+            break;
+        }
+        i += 1;
+    }
+    fsim::set_op_tag(0);
+    drop(store);
+    ctx.join_others();
+    if std::env::var("BCSIM_DEBUG").is_ok() {
+        dump_io_log(ctx.sim);
+    }
+    let fired = fsim::with_fs(ctx.sim, |fs| fs.fired.clone());
+    if let Some(f) = fired.first() {
+        let opk = (f.tag & 0xffff_ffff) as usize;
+        let during = if opk >= 1 && opk <= all_ops.len() {
+            match &all_ops[opk - 1] {
+                Op::Set(_, v) => if v.len >= 8150 { 1 } else { 2 },
+                Op::Del(..) => 3,
+                Op::Merge => 4,
+                Op::Reopen(..) | Op::Retune(..) => 5,
+                _ => 6,
+            }
+        } else {
+            7
+        };
+        let name = fsim::with_fs(ctx.sim, |fs| fs.path_name(f.path).to_string());
+        ctx.sig(mix(f.op as u64, mix(during, mix(name.ends_with(".hint") as u64, mix(f.errno as u64, f.short.is_some() as u64)))));
+        ctx.out.nontrivial = true;
+    }
+    remove_dir(ctx, &rel);
+}
+
+pub fn dump_io_log(sim: &Sim) {
+    fsim::with_fs(sim, |fs| {
+        for r in &fs.log {
+            eprintln!("{:>4} t{} op{:<3} {:?} {} fd={} a={} b={} res={} {}{}", r.seq, r.tid, r.tag & 0xffff_ffff, r.op, fs.path_name(r.path), r.fd, r.a, r.b, r.res, r.what, if r.injected { " [injected]" } else { "" });
+        }
+    });
 }
